@@ -117,7 +117,7 @@ func confirmAndMinimise(b builds, cfg tierCfg, viol *proto.Record) *proto.Record
 		out := filepath.Join(scratch, "prefix.json")
 		env := []string{"GOMAXPROCS=1"}
 		if o, err := run(scratch, env, 2*time.Minute, b.plain, "records", "-seed", strconv.FormatUint(cur.Seed, 10), "-proc", strconv.Itoa(cur.Proc),
-			"-from", "0", "-runs", strconv.Itoa(cur.Run.Index), "-corpus", filepath.Join(scratch, "corpus.json"),
+			"-clock="+strconv.FormatBool(usesClock(b)), "-from", "0", "-runs", strconv.Itoa(cur.Run.Index), "-corpus", filepath.Join(scratch, "corpus.json"),
 			"-expected", filepath.Join(scratch, "expected.json"), "-maxstep", strconv.FormatInt(cfg.maxStep, 10), "-out", out); err != nil {
 			fatal("records: %v\n%s", err, o)
 		}
